@@ -8,6 +8,7 @@ import (
 	"flag"
 	"fmt"
 	"os"
+	"strings"
 	"time"
 
 	"verifsim/harness"
@@ -37,7 +38,19 @@ func main() {
 	states := flag.Bool("states", false, "include the list of abstract cluster state hashes")
 	dump := flag.Bool("dump", false, "print the generated config and plan of -seed and exit")
 	thorough := flag.Bool("thorough", false, "deeper variant of the profile")
+	profiles := flag.String("profiles", "", "comma-separated profiles; the profile of a seed is profiles[(seed-base) % n] (independent of the number of workers)")
+	base := flag.Uint64("base", 0, "base seed for -profiles")
 	flag.Parse()
+	var plist []string
+	if *profiles != "" {
+		plist = strings.Split(*profiles, ",")
+	}
+	profileOf := func(seed uint64) string {
+		if len(plist) == 0 {
+			return *profile
+		}
+		return plist[(seed-*base)%uint64(len(plist))]
+	}
 	if *dump {
 		cfg, plan := harness.Gen(*profile, *start)
 		cfg.Thorough = *thorough
@@ -90,12 +103,12 @@ func main() {
 			break
 		}
 		seed := *start + uint64(i)*(*stride)
-		cfg, plan := harness.Gen(*profile, seed)
+		cfg, plan := harness.Gen(profileOf(seed), seed)
 		cfg.Trace = *trace
 		cfg.Thorough = *thorough
 		res := harness.Run(cfg, plan)
 		if *twice {
-			cfg2, plan2 := harness.Gen(*profile, seed)
+			cfg2, plan2 := harness.Gen(profileOf(seed), seed)
 			cfg2.Thorough = *thorough
 			res2 := harness.Run(cfg2, plan2)
 			if res2.Hash != res.Hash || res2.Steps != res.Steps {
